@@ -382,6 +382,18 @@ def entails_empty(tests, var):
     return True
 
 
+def emptiness_facts(var, empty):
+    """assumption list for cfg.path(assume=...): the local *var* holds an empty / a non-empty bytes or str value"""
+    from .cfg import _local_atoms
+    out = [(var, not empty, {var})]
+    for lit in (b'', ''):
+        cs = []
+        _local_atoms(ast.Compare(left=ast.Name(id=var, ctx=ast.Load()), ops=[ast.Eq()], comparators=[ast.Constant(value=lit)]), True, cs)
+        for a, v, names in cs:
+            out.append((a, empty if (lit == b'' or not empty) else False, set(names)))
+    return out
+
+
 def empty_edges(g, var):
     """{(test node, label)}: the outcomes of single tests that force `var` to be empty (if not var / if var == b'' / if len(var) == 0,
     the else-side of `if var:` ...), however the test is written"""
@@ -489,8 +501,22 @@ def found_tests(g, var):
 def scenario_paths(g, scenario, start=None, limit=3000, skip_labels=('exc',)):
     """all simple paths start(entry) -> exit / raise-exit on which every test whose atoms the *scenario* (atom text -> bool) decides
     takes the decided outcome; other tests fork.  Short-circuit `and` / `or` are evaluated with Python's rules."""
-    def decide(test):
+    try:
+        sa_ = aliases_of(g.fi).single_assign
+    except Exception:
+        sa_ = {}
+    # flag locals: `is_eio = isinstance(exc, OSError) and exc.errno == errno.EIO` makes a later `if is_eio:` a test of that condition
+    flags = dict((k_, v_) for k_, v_ in sa_.items() if isinstance(v_, (ast.BoolOp, ast.Compare)) or
+                 (isinstance(v_, ast.UnaryOp) and isinstance(v_.op, ast.Not)) or
+                 (isinstance(v_, ast.Call) and isinstance(v_.func, ast.Name) and v_.func.id == 'isinstance'))
+
+    def decide(test, depth=0):
         co, lab = truth(test)
+        if isinstance(co, ast.Name) and co.id in flags and depth < 4:
+            r = decide(flags[co.id], depth + 1)
+            if r is None:
+                return None
+            return r if lab == 'true' else not r
         if isinstance(co, ast.BoolOp):
             rs = [decide(v) for v in co.values]
             if isinstance(co.op, ast.And):
